@@ -249,33 +249,66 @@ theorem scanCdata_run (d post : Str) (hd : d ≠ []) (hnl : ∀ c ∈ d, notNl c
       rw [this]; apply List.drop_left'; simp [cdataClose]
     rw [e1, e2]
 
-theorem scanBody_cdata (d post : Str) (hd : d ≠ []) (hnl : ∀ c ∈ d, notNl c = true)
+/-- white space cannot be `<`: where `[^<]+` stops, `\s*` stops too -/
+theorem stops_space_of_notLt {rest : Str} (h : Stops notLt rest) : Stops isSpace rest := by
+  intro c r e
+  have hc : notLt c = false := h c r e
+  have : c = '<' := by simpa [notLt] using hc
+  subst this; decide
+
+/-- the CDATA alternative, whatever follows: the data, then the maximal run of white space is passed over -/
+theorem scanBody_cdata_raw (d post : Str) (hd : d ≠ []) (hnl : ∀ c ∈ d, notNl c = true)
     (hg : containsSub cdataClose d = false) :
-    scanBody (cdataOf d ++ post) = (some d, none, post) := by
+    scanBody (cdataOf d ++ post) = (some d, none, post.dropWhile isSpace) := by
   have e : cdataOf d ++ post = cdataOpen ++ (d ++ (cdataClose ++ post)) := by simp [cdataOf]
   rw [e]
   simp only [scanBody, dropPrefix_append, Option.bind_some, scanCdata_run d post hd hnl hg]
 
-/-- `<t><![CDATA[d]]>` w, not followed by the matching end tag -/
-theorem matchHere_cdata_open (tg d w rest : Str) (htg : tg ≠ []) (htc : ∀ c ∈ tg, isTagChar c = true)
-    (hd : d ≠ []) (hnl : ∀ c ∈ d, notNl c = true) (hw : ∀ c ∈ w, notLt c = true) (hrest : Stops notLt rest)
-    (hg : containsSub cdataClose d = false)
-    (hcl : dropPrefix (endTag tg) (w ++ rest) = none) :
-    matchHere (startTag tg ++ (cdataOf d ++ (w ++ rest))) =
-      some { tag := tg, cdata := some d, text := none, closetag := none, tail := optStr w,
-             len := (startTag tg ++ (cdataOf d ++ w)).length } := by
-  rw [matchHere_tag tg _ htg htc, scanBody_cdata d _ hd hnl hg]
-  simp only [scanClose_none tg _ hcl, scanTail_run w rest hw hrest, optLen_optStr]
-  simp [startTag, cdataOf, cdataOpen, cdataClose]; omega
+/-- `<![CDATA[d]]>` w: the white space `w` after the section is consumed by `\s*` -/
+theorem scanBody_cdata (d w post : Str) (hd : d ≠ []) (hnl : ∀ c ∈ d, notNl c = true)
+    (hg : containsSub cdataClose d = false) (hw : ∀ c ∈ w, isSpace c = true) (hpost : Stops isSpace post) :
+    scanBody (cdataOf d ++ (w ++ post)) = (some d, none, post) := by
+  rw [scanBody_cdata_raw d _ hd hnl hg, dropWhile_run isSpace w post hw hpost]
 
-/-- `<t><![CDATA[d]]></t>` w -/
-theorem matchHere_cdata_closed (tg d w rest : Str) (htg : tg ≠ []) (htc : ∀ c ∈ tg, isTagChar c = true)
-    (hd : d ≠ []) (hnl : ∀ c ∈ d, notNl c = true) (hw : ∀ c ∈ w, notLt c = true) (hrest : Stops notLt rest)
+/-- `<t><![CDATA[d]]>` w, not followed by the matching end tag: the white space belongs to the match, not to `tail` -/
+theorem matchHere_cdata_open (tg d w rest : Str) (htg : tg ≠ []) (htc : ∀ c ∈ tg, isTagChar c = true)
+    (hd : d ≠ []) (hnl : ∀ c ∈ d, notNl c = true) (hw : ∀ c ∈ w, isSpace c = true) (hrest : Stops notLt rest)
+    (hg : containsSub cdataClose d = false)
+    (hcl : dropPrefix (endTag tg) rest = none) :
+    matchHere (startTag tg ++ (cdataOf d ++ (w ++ rest))) =
+      some { tag := tg, cdata := some d, text := none, closetag := none, tail := none,
+             len := (startTag tg ++ (cdataOf d ++ w)).length } := by
+  rw [matchHere_tag tg _ htg htc, scanBody_cdata d w rest hd hnl hg hw (stops_space_of_notLt hrest)]
+  simp only [scanClose_none tg _ hcl, scanTail_stop rest hrest]
+  simp [optLen, startTag, cdataOf, cdataOpen, cdataClose]; omega
+
+/-- `<t><![CDATA[d]]>` w x: text that is not white space after the section (and after the white space) is the `tail` -/
+theorem matchHere_cdata_tail (tg d w x rest : Str) (c : Char) (htg : tg ≠ []) (htc : ∀ c ∈ tg, isTagChar c = true)
+    (hd : d ≠ []) (hnl : ∀ c ∈ d, notNl c = true) (hw : ∀ c ∈ w, isSpace c = true)
+    (hc : isSpace c = false) (hx : ∀ a ∈ c :: x, notLt a = true) (hrest : Stops notLt rest)
     (hg : containsSub cdataClose d = false) :
-    matchHere (startTag tg ++ (cdataOf d ++ (endTag tg ++ (w ++ rest)))) =
+    matchHere (startTag tg ++ (cdataOf d ++ (w ++ (c :: x ++ rest)))) =
+      some { tag := tg, cdata := some d, text := none, closetag := none, tail := some (c :: x),
+             len := (startTag tg ++ (cdataOf d ++ (w ++ c :: x))).length } := by
+  have hcl : dropPrefix (endTag tg) (c :: x ++ rest) = none := by
+    have : c ≠ '<' := by have := hx c (by simp); simpa [notLt] using this
+    simp [endTag, dropPrefix, Ne.symm this]
+  rw [matchHere_tag tg _ htg htc,
+    scanBody_cdata d w _ hd hnl hg hw (show Stops isSpace (c :: x ++ rest) from stops_cons (x ++ rest) hc)]
+  simp only [scanClose_none tg _ hcl, scanTail_run (c :: x) rest hx hrest, optLen_optStr]
+  simp [optStr, startTag, cdataOf, cdataOpen, cdataClose]; omega
+
+/-- `<t><![CDATA[d]]>` w1 `</t>` w: white space may stand between `]]>` and the element's own end tag -/
+theorem matchHere_cdata_closed (tg d w1 w rest : Str) (htg : tg ≠ []) (htc : ∀ c ∈ tg, isTagChar c = true)
+    (hd : d ≠ []) (hnl : ∀ c ∈ d, notNl c = true) (hw1 : ∀ c ∈ w1, isSpace c = true)
+    (hw : ∀ c ∈ w, notLt c = true) (hrest : Stops notLt rest)
+    (hg : containsSub cdataClose d = false) :
+    matchHere (startTag tg ++ (cdataOf d ++ (w1 ++ (endTag tg ++ (w ++ rest))))) =
       some { tag := tg, cdata := some d, text := none, closetag := some tg, tail := optStr w,
-             len := (startTag tg ++ (cdataOf d ++ (endTag tg ++ w))).length } := by
-  rw [matchHere_tag tg _ htg htc, scanBody_cdata d _ hd hnl hg]
+             len := (startTag tg ++ (cdataOf d ++ (w1 ++ (endTag tg ++ w)))).length } := by
+  have hst : Stops isSpace (endTag tg ++ (w ++ rest)) := by
+    simp only [endTag, List.cons_append]; exact stops_cons _ (by decide)
+  rw [matchHere_tag tg _ htg htc, scanBody_cdata d w1 _ hd hnl hg hw1 hst]
   simp only [scanClose_some, scanTail_run w rest hw hrest, optLen_optStr]
   simp [startTag, endTag, cdataOf, cdataOpen, cdataClose]; omega
 
